@@ -70,34 +70,97 @@ func vpH_c08_decode_order() {
 
 // a programmatically built map survives encode -> decode at node level
 func vpH_c08_roundtrip() {
-	n := vpInt(0, vpParam("entries"))
 	m := NewMap[string, any](0)
-	for i := 0; i < n; i++ {
-		k := vpStrUpTo(2, "a-b")
-		vpAssume(!m.Contains(k))
-		if vpBool() {
-			m.Set(k, vpStrUpTo(1, "x-y"))
-		} else {
-			inner := NewMap[string, any](0)
-			inner.Set(vpStrUpTo(1, "a-b"), vpStrUpTo(1, "x-y"))
-			m.Set(k, inner)
+	if vpParam("ops") == 0 {
+		// variety of content: symbolic keys (the empty key, coinciding prefixes), nested maps
+		n := vpInt(0, vpParam("entries"))
+		for i := 0; i < n; i++ {
+			k := vpStrUpTo(2, "a-b")
+			vpAssume(!m.Contains(k))
+			if vpBool() {
+				m.Set(k, vpStrUpTo(1, "x-y"))
+			} else {
+				inner := NewMap[string, any](0)
+				inner.Set(vpStrUpTo(1, "a-b"), vpStrUpTo(1, "x-y"))
+				m.Set(k, inner)
+			}
+		}
+	} else {
+		// variety of history: fixed content, then `ops` further operations
+		for i, k := range []string{"a", "b", "c", "d"}[:vpParam("entries")] {
+			m.Set(k, "v"+string(rune('0'+i)))
 		}
 	}
 	// programmatic maps have histories: deletions and renames leave tombstoned
-	// slots behind (front, middle or end) that the emitters must step over
+	// slots behind (front, middle or end) that the emitters must step over, and
+	// later insertions must still land where they belong. A list-of-pairs
+	// model records what was built.
+	var mk []string
+	var mv []any
+	m.Range(func(k string, v any) error { mk, mv = append(mk, k), append(mv, v); return nil })
+	find := func(k string) int {
+		for i, o := range mk {
+			if o == k {
+				return i
+			}
+		}
+		return -1
+	}
+	remove := func(i int) {
+		mk = append(append([]string{}, mk[:i]...), mk[i+1:]...)
+		mv = append(append([]any{}, mv[:i]...), mv[i+1:]...)
+	}
 	for o := vpInt(0, vpParam("ops")); o > 0; o-- {
-		var keys []string
-		m.Range(func(k string, _ any) error { keys = append(keys, k); return nil })
-		if len(keys) == 0 {
+		if len(mk) == 0 {
 			break
 		}
-		k := keys[vpInt(0, len(keys)-1)]
-		if vpBool() {
+		k := mk[vpInt(0, len(mk)-1)]
+		switch vpInt(0, 3) {
+		case 0:
 			m.Delete(k)
-		} else {
-			m.Replace(k, keys[vpInt(0, len(keys)-1)], "r")
+			remove(find(k))
+		case 1: // rename onto another existing key or itself
+			k2 := mk[vpInt(0, len(mk)-1)]
+			m.Replace(k, k2, "r")
+			i := find(k)
+			mk[i], mv[i] = k2, "r"
+			if k2 != k {
+				for j := range mk {
+					if j != i && mk[j] == k2 {
+						remove(j)
+						break
+					}
+				}
+			}
+		case 2: // insert a fresh key, or overwrite an existing one, after the deletions
+			k2 := "n" + vpStrUpTo(1, "a-b")
+			m.Set(k2, "s")
+			if i := find(k2); i >= 0 {
+				mv[i] = "s"
+			} else {
+				mk, mv = append(mk, k2), append(mv, "s")
+			}
+		default: // Replace with an absent old key: the item goes to the end, an existing new key goes away
+			m.Replace("absent", k, "q")
+			remove(find(k))
+			mk, mv = append(mk, k), append(mv, "q")
 		}
 	}
+	vpAssert(m.Len() == len(mk), "the built map has the entries of the list-of-pairs model")
+	for i, k := range mk {
+		got, has := m.Get(k)
+		_, nested := mv[i].(*Map[string, any])
+		vpAssert(has && (nested || got == mv[i]), "every key that was built is found, with its value")
+	}
+	bi := 0
+	m.Range(func(k string, v any) error {
+		if bi < len(mk) {
+			_, nested := mv[bi].(*Map[string, any])
+			vpAssert(k == mk[bi] && (nested || v == mv[bi]), "the built map has the keys, values and order of the model")
+		}
+		bi++
+		return nil
+	})
 	// JSON: bytes -> yaml.Unmarshal (JSON is YAML) -> DecodeYAML
 	jb, jerr := json.Marshal(m)
 	vpAssert(jerr == nil, "json.Marshal of a programmatically built map succeeds")
@@ -108,6 +171,14 @@ func vpH_c08_roundtrip() {
 		vpAssert(err == nil, "the emitted JSON decodes")
 		jm, ok := jback.(*Map[string, any])
 		vpAssert(ok && Equal(m, jm), "JSON encode then decode gives an Equal map (keys, values, order)")
+		if ok {
+			vpAssert(vpJKind(jb) == 5 && vpJLen(jb) == len(mk), "the JSON object has one member per entry that was built")
+			for i := range mk {
+				if i < vpJLen(jb) {
+					vpAssert(vpJKey(jb, i) == mk[i], "the JSON members are the keys that were built, in order")
+				}
+			}
+		}
 	}
 	// YAML: node tree -> DecodeYAML
 	y, err := m.MarshalYAML()
